@@ -201,9 +201,11 @@ def build_repo_binary(pkg, name):
     return rc, o, out
 
 
-def build_driver():
-    rc, o = lake_build(["drv"])
-    return rc, o, os.path.join(LEAN, ".lake", "build", "bin", "drv")
+def build_driver(engines=()):
+    """Build one stand-alone driver executable per engine (drv_<engine>); returns the bin directory."""
+    targets = ["drv_" + e for e in engines] or ["drv"]
+    rc, o = lake_build(targets)
+    return rc, o, os.path.join(LEAN, ".lake", "build", "bin")
 
 
 # ---------------------------------------------------------------- engines
@@ -242,7 +244,8 @@ def run_engine(vh, drv, engine, prop, tier, seed, outdir, extra=None, search=Fal
         t1 = time.time()
         with open(tp) as f:
             try:
-                rc2, o2 = sh([drv, engine], stdin=f, timeout=timeout)
+                exe = os.path.join(drv, "drv_" + engine) if os.path.isdir(drv) else drv
+                rc2, o2 = sh([exe, engine], stdin=f, timeout=timeout)
             except subprocess.TimeoutExpired:
                 rc2, o2 = 124, "drv timed out"
         res["rc_drv"] = rc2
